@@ -43,7 +43,11 @@ class Member:
 
 
 class Col:
+    _inc = 0
+
     def __init__(self, path, kind, backend, meta="file"):
+        Col._inc += 1
+        self.inc = Col._inc       # incarnation number (delete + recreate gives a new one)
         self.path = path          # '/user/calendars/c1/' (always with trailing slash, without prefix)
         self.kind = kind          # calendar | addressbook | plain
         self.backend = backend    # tree | bare
@@ -231,6 +235,7 @@ class World:
         ctype = ctype or ctype_for(name)
         hs = [("Content-Type", ctype)] + list(headers)
         s, r = self.call(op, "PUT", self.url(colpath, name), hs, body)
+        self.last_write = {"step": s, "col": colpath, "name": name, "body": body}
         if self.success(s.eff) and col is not None:
             self._apply_put(col, name, ctype_for(name), body, token, uid, r.header("ETag"))
         elif col is not None and name not in col.members and name not in col.graves:
@@ -253,6 +258,7 @@ class World:
     def post(self, colpath, body, ctype, uid=None, token=None):
         col = self.cols.get(colpath)
         s, r = self.call("post", "POST", self.url(colpath), [("Content-Type", ctype)], body)
+        self.last_write = {"step": s, "col": colpath, "name": None, "body": body}
         if self.success(s.eff) and col is not None:
             loc = r.header("Location")
             s.note = {"location": loc}
